@@ -281,7 +281,7 @@ TypePara ==
            hard == two /\ Level = 2 /\ v % 4 = 3
            (* the indentation of the first line spelled as a tab: it reaches the next tab stop, counted from the beginning of the
               line - fewer than four columns (so no indented code) exactly when the container prefix does not end on a tab stop *)
-           tab == Level = 2 /\ v % 7 = 3 /\ ~InItemFirstLine /\ last.kind # "list" /\ Len(LineNow("x")) % 4 # 1 IN
+           tab == Level = 2 /\ v % 7 = 3 /\ AllStarted /\ last.kind # "list" /\ Len(LineNow("x")) % 4 # 1 IN
        /\ IndOk(ind)
        /\ (keep < Depth => v % 2 = 0)                            \* one lazy spelling per variant pair is enough
        /\ LET l2 == <<W(WordAt(nblocks + 7)), W("cont")>>
@@ -487,6 +487,9 @@ OpenList ==
       LET m == At(MarkerSeq, v)
           indent == At(Pick(<<0>>, <<0>>, <<0, 1, 2>>), v \div 3)
           pad == At(Pick(<<1>>, <<1, 2>>, <<1, 2, 3>>), v \div 2)
+          (* the marker's padding spelled as one tab: it reaches the next tab stop counted from the beginning of the line, 1-4 columns *)
+          tabpad == Level = 2 /\ v % 5 = 4 /\ ~bs /\ AllStarted
+          tabw == 4 - ((Len(PrefixRest(open)) + indent + Len(MarkerStr(m))) % 4)
           sl == SepLines(sep) IN
        /\ phase = "typing" /\ Depth < MaxDepth /\ nblocks < MaxBlocks
        /\ FirstKindOk("list")
@@ -498,11 +501,16 @@ OpenList ==
        /\ nodes' = nodes \o <<Node("List", Parent, Len(src) + Len(sl) + 1, 0, NoText, [start |-> (IF "b" \in DOMAIN m THEN 0 ELSE m.n), ordered |-> ~("b" \in DOMAIN m)]),
                               Node("ListItem", Len(nodes) + 1, Len(src) + Len(sl) + 1, 0, NoText, "")>>
        /\ open' = IF bs THEN Append(Started(open), EmptyStartFrame(Len(nodes) + 1, Len(nodes) + 2, m, indent))
+                        ELSE IF tabpad THEN Append(open, [ItemFrame(Len(nodes) + 1, Len(nodes) + 2, m, indent, tabw) EXCEPT
+                                                             !.first = Spaces(indent) \o MarkerStr(m) \o "{TAB}"])
                         ELSE Append(open, ItemFrame(Len(nodes) + 1, Len(nodes) + 2, m, indent, pad))
        /\ loose' = LooseAfter(sep)
        /\ last' = [kind |-> "none", mtype |-> "", inner |-> "none"]
-       /\ tags' = tags \cup (IF bs THEN {"item-begins-with-blank-line"} ELSE {}) \cup NcSep(sep) \cup NcIf(bs)
-                       \cup (IF SepKind(m) = "olist" THEN LazyTag(sep) ELSE {})      \* cannot interrupt a paragraph, so it is what the reader takes for lazy text
+       /\ tags' = tags \cup (IF bs THEN {"item-begins-with-blank-line"} ELSE {}) \cup NcSep(sep) \cup NcIf(bs \/ tabpad)
+                       \cup (IF SepKind(m) = "olist" THEN LazyTag(sep) ELSE {})
+                       (* recorded finding: nested readers see the line without the enclosing containers' prefixes and count tab
+                          stops from there; that agrees with the true columns only when the prefixes are a multiple of four wide *)
+                       \cup (IF tabpad /\ Len(PrefixRest(open)) % 4 # 0 THEN {"tab-stop-relative-to-container"} ELSE {})      \* cannot interrupt a paragraph, so it is what the reader takes for lazy text
        /\ nblocks' = IF bs THEN nblocks + 1 ELSE nblocks       \* an item that may stay empty counts against the budget
        /\ UNCHANGED <<defs, phase, target>>
 
